@@ -115,12 +115,26 @@ def run(ctx: Context, col) -> None:
             "dimensions == MAXS - MINS + 1, mode='clip'" if ok4 else
             f"dimensions {show_norm(args[1]) if len(args) > 1 else None}, mode {kws.get('mode')}", text="dims and mode")
     # the space
-    prods = [t for t in subterms(space) if t[0] == "app" and t[1] == "itertools.product"]
     construct = "create_range_space"
+    # the dense-grid idiom np.indices(D).reshape(len(D), -1).T + M enumerates the same rows in the same order as
+    # product(*[arange(M[i], M[i] + D[i])]): bring it to that form (an explicit narrow dtype of the offsets is not the same thing)
+    from ..terms import NARROW_INT_DTYPES, indices_space
+    grid = indices_space(space)
+    if grid is not None:
+        d_, m_, dt_ = grid
+        if dt_ in NARROW_INT_DTYPES:
+            col.add("R19.3", construct, file, fn.lineno, False,
+                    f"the offsets of the grid are enumerated in {dt_}: they run up to MAXS[i] - MINS[i], which nothing bounds by the range of {dt_}, so a "
+                    "dimension wider than that wraps around and the space lists wrong (repeated) vectors while the index function still uses "
+                    "the true dimensions", text="space term")
+            return
+        j_ = fresh("dim")
+        space = ("app", "itertools.product", (("star", ("lam", j_, "dim", ("app", "arange", (I.elem(m_, j_), I.elem(T_add(m_, d_), j_))))),))
+    prods = [t for t in subterms(space) if t[0] == "app" and t[1] == "itertools.product"]
     if len(prods) != 1 or len(prods[0][2]) != 1 or prods[0][2][0][0] != "star":
-        col.add("R19.3", construct, file, fn.lineno, False,
-                f"space is not itertools.product(*ranges): {show_norm(space)[:160]}", text="space term")
-        return
+        # a way of listing the vectors this rule has no normal form for: no verdict (not a violation)
+        raise AnalysisError(f"create_range_space: the space is built by a construct outside the rule's vocabulary (itertools.product over per-dimension "
+                            f"ranges, or the np.indices grid idiom): {show_norm(space)[:160]}")
     ranges = prods[0][2][0][1]
     i = fresh("dim")
     want_ranges = ("lam", i, "dim", ("app", "arange", (I.elem(MINS, i), T_add(I.elem(MAXS, i), K(1)))))
